@@ -116,7 +116,7 @@ pub fn run(ctx: Ctx) -> Report {
             // ---- accepted preamble: declared padding skipped exactly ----------------------------
             let mut lens: Vec<usize> = vec![0, 1, 2, 29, 30, 31, 254, 255, 256, 257, 1023, 1024, 16383, 16384, 16385, 32767, 32768, 65534, 65535];
             if quick {
-                for _ in 0..500 {
+                for _ in 0..6000 {
                     lens.push(rng.usize(0, 65535));
                 }
             } else {
